@@ -110,6 +110,33 @@ def use_closure(scope):
     return seen
 
 
+def whole_alias_names(w, sc):
+    """local names introduced by `use m, local => remote` (no ONLY) on the chain/closure of the site, and ONLY-aliases of them, transitively"""
+    wl_ = {l.lower() for l, r_, u_ in whole_renames(sc)}
+    grew = bool(wl_)
+    while grew:
+        grew = False
+        for s2_ in list(sc.chain()) + use_closure(sc) + list(w.mods):
+            for u2_ in s2_.uses:
+                for l2_, r2_ in (u2_.only or []):
+                    if r2_.lower() in wl_ and l2_.lower() not in wl_:
+                        wl_.add(l2_.lower())
+                        grew = True
+    return wl_
+
+
+def typed_via_whole_alias(ent, wl_):
+    """the object is declared TYPE(alias), or its type (or an ancestor) names its parent by such an alias"""
+    if (getattr(ent, "tname", None) or "").lower() in wl_:
+        return True
+    t_ = ent.tdef
+    while t_ is not None:
+        if (getattr(t_, "parent_name", None) or "").lower() in wl_:
+            return True
+        t_ = t_.parent
+    return False
+
+
 def site_module(scope):
     return scope.chain()[-1]
 
